@@ -89,6 +89,11 @@ def check(run):
     run.cov["correspondence"] = {"stats": stats, "call_forms_exercised": forms}
     run.cov["open_obligations"] = ["no theorem about the typer's method resolution; per-program validation only", "an unsatisfied trait bound at a generic call site is accepted (recorded under C03/C02), so it is not among the negatives here"]
     run.assumptions = ["the direct-call program is the meaning of 'the implementation for the receiver's type'"]
+    for k in run.known:
+        if k["replay"]["kind"] == "call-form-rejected":
+            (r,) = vlib.run_harness("compile", [{"path": os.path.join(vlib.VERIF, k["replay"]["program"]), "timeout_ms": 20000}])
+            if not r.get("ok") and any("Method" in d["message"] and "not found" in d["message"] for d in (r.get("diagnostics") or [])):
+                run.known_finding(k["id"], "%s: %s (%s)" % (k["id"], k["what"], k["replay"]["program"]))
     if wits:
         for w in wits[:3]:
             run.violation(w)
